@@ -151,6 +151,22 @@ PROPERTIES = {
         assumptions=["assumed contracts of sqrtm / inv / fft (listed per obligation)", "floats as exact complex numbers",
                      "the symbolic Atoms/SCF state is the state contract of Atoms.build / SCF (Gk2c, active, Omega, real Vloc, symmetric h)"],
     ),
+    "C13": dict(
+        engines="ZA",
+        claim="Charge bookkeeping of the real Occupations setters for every state (Nelec' = Nelec + charge - charge'); the objective handed "
+              "to the root finder in get_Efermi is the k-weighted electron count (loop invariant over k: any number of k-points, states, "
+              "weights); call-site pre-condition of root_scalar (sign change over the bracket whenever a Fermi level exists); the Fermi "
+              "function maps into (0,1) and is strictly decreasing; the entropy term is non-positive; integer/fractional filling loops: see "
+              "evidence for which clauses are proved with loop invariants and which are bounded.",
+        note="root_scalar is an assumed contract (requires a sign change, returns a root in the bracket); exp/log enter through monotonicity / "
+             "sign lemmas; z3 and the in-house symbolic executor trusted (canary on every run)",
+        modules=["contracts.c13"],
+        level="proof",
+        trusted_base=["ast (parser)", "in-house AST->z3 symbolic executor (engine Z)", "z3 5.1", "engine A for the Fermi function"],
+        assumptions=["root_scalar contract", "log x < 0 on (0,1); Fermi function decreasing with F(0) = 1/2, F(x) + F(-x) = 1, F(36) < 1e-6 (exp lemmas)",
+                     "floats as exact reals"],
+        explanation="symbolic execution of the real setters / get_Efermi / electronic_entropy with loop invariants and callee contracts",
+    ),
 }
 
 
